@@ -69,18 +69,19 @@ def run(chk):
     r = rng.random()
     mutable = True if r < 0.35 else (wc if r < 0.7 and wc else rng.choice([False, wc[:1], ['batch_stats'], {'deny': 'params'}]))
     tn.append({'prog': prog, 'streams': rng.choice([['params'], ['params', 'dropout'], ['params', 'dropout', 'noise']]), 'mutable': mutable,
-               'xs': [[rng.randint(-3, 3) for _ in range(n)] for _ in range(rng.randint(2, 4))]})
+               'xs': [[rng.randint(-3, 3) for _ in range(n)] for _ in range(rng.randint(2, 4))],
+               'call_rngs': [rng.choice([None, None, rng.randint(0, 50)]) for _ in range(4)]})
   for i in range(700 if thorough else 70):
     vars_ = C8.gen_vars(rng)
     for v in vars_:
-      v['type'] = rng.choice(['Param', 'Param', 'BatchStat', 'Cache', 'Custom'])
+      v['type'] = rng.choice(['Param', 'Param', 'BatchStat', 'Cache', 'Custom', 'SubParam'])
       v['spec'] = 'carry'
       v['val'] = [rng.randint(-3, 4) for _ in range(rng.randint(1, 3))]
     body = C8.gen_body(rng, vars_, 'vmap')
     n = rng.randint(1, 3)
-    colsw = sorted({{'Param': 'params', 'BatchStat': 'batch_stats', 'Cache': 'cache', 'Custom': 'Custom'}[vars_[s[1]]['type']] for s in body['stmts'] if s[0] in ('addto', 'scale')})
+    colsw = sorted({{'Param': 'params', 'BatchStat': 'batch_stats', 'Cache': 'cache', 'Custom': 'Custom', 'SubParam': 'SubParam'}[vars_[s[1]]['type']] for s in body['stmts'] if s[0] in ('addto', 'scale')})
     r = rng.random()
-    mutable = True if r < 0.3 else (colsw if r < 0.6 and colsw else rng.choice([False, ['batch_stats'], ['cache', 'Custom'], colsw[:1]]))
+    mutable = True if r < 0.3 else (colsw if r < 0.6 and colsw else rng.choice([False, ['batch_stats'], ['cache', 'Custom'], ['SubParam'], colsw[:1]]))
     tl.append({'desc': {'vars': vars_, 'body': body}, 'xs': [[rng.randint(-2, 3) for _ in range(n)] for _ in range(rng.randint(2, 4))], 'mutable': mutable})
   W = 12
   results = common.run_impl_parallel('impl_c18.py', [{'tonnx': tn[i::W], 'tolinen': tl[i::W]} for i in range(W)], workers=W, timeout=3000)
@@ -116,6 +117,8 @@ def run(chk):
     for a in init['attrs']:
       if a['registered'] != a['col'] or a['col'] not in ref['vars']:
         chk.violation('oracle', 'a collection is not stored under the NNX Variable type registered for its name', {'case': c, 'attr': a})
+    if init.get('keys') != init.get('keys_expected'):
+      chk.violation('oracle', 'the keys drawn by the Linen module during ToNNX.lazy_init are not the ones the wrapper\'s rng streams hand out', {'case': c, 'got': init.get('keys'), 'expected': init.get('keys_expected')})
     top = cN(c['prog']['top'])
     row = ['(let v0 := flat_vtree %s in fm_eqv (pair_beq N.eqb sval_beq) (to_nnx v0) %s && lv_eqv (to_linen (to_nnx v0)) (flat_vtree %s))' % (
         LP.cvtree(ref['vars']), cattrs(init['attrs']), LP.cvtree(init['vars']))]
@@ -130,6 +133,10 @@ def run(chk):
           chk.violation('oracle', 'a ToNNX call differs from Module.apply on the variables it holds (output, or the state after merging the updates of mutable collections)',
                         {'case': c, 'x': x, 'tonnx': impl, 'linen': rf})
           break
+      if 'err' not in impl and call.get('keys_expected') is not None and impl.get('keys') != call['keys_expected']:
+        chk.violation('oracle', 'the keys drawn inside a ToNNX call are not those of the rngs passed to the call (or, without them, of the wrapper\'s own streams in order)',
+                      {'case': c, 'x': x, 'got': impl.get('keys'), 'expected': call['keys_expected']})
+        break
       env = LP.cenv(c['prog'], c['mutable'], c['streams'])
       vb = LP.cvtree(call['vars_before'])
       if 'err' in impl:
@@ -139,7 +146,7 @@ def run(chk):
         row.append('(match apply_m %s %s %s %s with Ok (y, s) => vec_beq y %s && lv_eqv (to_linen (merge_updates (to_nnx (flat_vtree %s)) (flat_vtree (returned %s (s_vars s))))) (flat_vtree %s) '
                    '| Err _ => false end)' % (env, top, vb, LP.cvec(x), LP.cvec(impl['out']), vb, env, LP.cvtree(impl['vars'])))
     rows.append((('tonnx', c, o), '(' + ' && '.join(row) + ')'))
-  COLOF = {'Param': 'params', 'BatchStat': 'batch_stats', 'Cache': 'cache', 'Custom': 'Custom'}
+  COLOF = {'Param': 'params', 'BatchStat': 'batch_stats', 'Cache': 'cache', 'Custom': 'Custom', 'SubParam': 'SubParam'}
   for c, o in zip(tl, lres):
     chk.count({'tolinen': c}, c['mutable'] is not False and len(c['desc']['vars']) > 1)
     if 'err' in o:
@@ -173,6 +180,8 @@ def run(chk):
         break
       # model: one body run on the current values
       newvals = [rf['kept'][COLOF[v['type']]]['/'.join(v['path'])] for v in c['desc']['vars']]
+      if abs(impl['out']) > 10 ** 12 or any(abs(z) > 10 ** 12 for v in newvals for z in v):
+        break        # int64 wrap-around region: the exact-integer body model does not apply (the oracle above still does)
       row.append('(let \'(vals2, _, y) := brun %s %s %s 0%%Z in Z.eqb y %s && list_beq (list_beq Z.eqb) (map (fun jv => if nth (fst jv) %s false then snd jv else nth (fst jv) %s []) (combine (seq 0 %d) vals2)) %s)' % (
           C8.cbody(c['desc']['body']), clist([clist([cZ(z) for z in v]) for v in vals]), cZ(sum(x)), cZ(impl['out']),
           clist([cbool(keep(COLOF[v['type']])) for v in c['desc']['vars']]), clist([clist([cZ(z) for z in v]) for v in vals]), len(vals),
